@@ -62,7 +62,7 @@ def make_target(rng, kind):
         t.update(means=(-1.0, 2.0), variances=(0.5, 1.5))
     elif kind in ("lganm_sample", "anm_sample"):
         t.update(means=np.round(rng.uniform(-2, 2, p), 2), variances=np.round(rng.uniform(0.2, 2, p), 2), n=int(rng.integers(1, 40)),
-                 do={int(rng.integers(p)): ((1.0, 0.5) if rng.random() < 0.5 else (1.5, 0.0))} if rng.random() < 0.6 else {},
+                 do={int(rng.integers(p)): [(1.0, 0.5), (1.5, 0.0), (-1.0, 1.0), (-2, 2.0)][int(rng.integers(4))]} if rng.random() < 0.6 else {},
                  shift={int(rng.integers(p)): (0.5, 0.25)} if rng.random() < 0.5 else {},
                  noises=[["normal", "uniform", "laplace"][int(x)] for x in rng.integers(0, 3, p)])
         if kind == "anm_sample" and t["seed"] >= 2**32:
@@ -157,7 +157,8 @@ def _variant(t):
     used as a perturbation on the very object the target call uses (state kept per object or per argument 'shape')."""
     v = dict(t)
     if "do" in t:
-        v["do"] = {j: (p[0] + 1.5, p[1] * 2 + 0.1) for j, p in t["do"].items()}
+        # other values on the same targets; -1 <-> -2 only (their Python hashes collide: a cache keyed on hash(...) confuses them)
+        v["do"] = {j: ((p[0] + 1.5, p[1] * 2 + 0.1) if p[0] not in (-1, -2) else (type(p[0])(-3 - p[0]), p[1])) for j, p in t["do"].items()}
         v["shift"] = {j: (p[0] - 0.7, p[1] + 0.3) for j, p in t["shift"].items()}
     if "n" in t and not t.get("do") and not t.get("shift"):
         v["n"] = t["n"] + 1
